@@ -61,17 +61,17 @@ def _rollback_tries(fn: ast.AST):
 
 
 def _rollback_tries_indexed(fn: ast.AST):
-    """the same discipline kept with a counter: `for k, change in enumerate(<changes> | reversed(<changes>)): change.do()` in the try
-    body and a handler loop over a slice of <changes> bounded by k.  -> (try, handler, body loop, None, handler loop)"""
+    """the same discipline kept with a COUNTER: the try body loops over <changes> | reversed(<changes>) and counts the steps completed
+    -- the `enumerate` index, or a local incremented by one in the loop -- and a handler loop runs over a slice of <changes>
+    bounded by that counter.  -> (try, handler, body loop, None, handler loop)"""
     out = []
     for t in walk_local(fn):
         if not isinstance(t, ast.Try) or not t.handlers:
             continue
         for loop in [x for s_ in t.body for x in [s_, *walk_local(s_)] if isinstance(x, ast.For)]:
-            if not (isinstance(loop.iter, ast.Call) and call_name(loop.iter) == "enumerate" and len(loop.iter.args) == 1 and not loop.iter.keywords
-                    and isinstance(loop.target, ast.Tuple) and len(loop.target.elts) == 2 and all(isinstance(e, ast.Name) for e in loop.target.elts)):
+            k = _loop_counter(loop)
+            if k is None:
                 continue
-            k = loop.target.elts[0].id
             for h in t.handlers:
                 for n in [x for s_ in h.body for x in [s_, *walk_local(s_)]]:
                     if isinstance(n, ast.For) and any(isinstance(y, ast.Name) and y.id == k for y in ast.walk(n.iter)):
@@ -79,13 +79,37 @@ def _rollback_tries_indexed(fn: ast.AST):
     return out
 
 
-def _indexed_rollback_verdict(loop: ast.For, hloop: ast.For):
+def _loop_counter(loop: ast.For) -> Optional[str]:
+    if isinstance(loop.iter, ast.Call) and call_name(loop.iter) == "enumerate" and len(loop.iter.args) == 1 and not loop.iter.keywords \
+            and isinstance(loop.target, ast.Tuple) and len(loop.target.elts) == 2 and all(isinstance(e, ast.Name) for e in loop.target.elts):
+        return loop.target.elts[0].id
+    incs = [st for st in loop.body if isinstance(st, ast.AugAssign) and isinstance(st.op, ast.Add) and isinstance(st.target, ast.Name)
+            and isinstance(st.value, ast.Constant) and st.value.value == 1]
+    return incs[0].target.id if len(incs) == 1 else None
+
+
+def _indexed_rollback_verdict(fn: ast.AST, loop: ast.For, hloop: ast.For):
     """(ok | None, reason) for the counter form"""
-    k = loop.target.elts[0].id
-    it = loop.iter.args[0]
+    from .common import _subst_single_locals
+    k = _loop_counter(loop)
+    enum = isinstance(loop.iter, ast.Call) and call_name(loop.iter) == "enumerate"
+    it = _subst_single_locals(fn, loop.iter.args[0] if enum else loop.iter)
     backward = isinstance(it, ast.Call) and call_name(it) == "reversed" and len(it.args) == 1
     e = ast.unparse(it.args[0] if backward else it)
-    h = ast.unparse(hloop.iter)
+    # the counter is itself a local bound once (`undone = 0`) when it is the enumerate index: it is not read through
+    import copy as _copy
+    masked = _copy.deepcopy(hloop.iter)
+    for y in ast.walk(masked):
+        if isinstance(y, ast.Name) and y.id == k:
+            y.id = "__counter__"
+    h = ast.unparse(_subst_single_locals(fn, masked)).replace("__counter__", k).replace(" :]", ":]")
+    if not enum:
+        # the counter counts COMPLETED steps only if it is incremented after the fallible call of the round
+        inc = next(st for st in loop.body if isinstance(st, ast.AugAssign) and isinstance(st.target, ast.Name) and st.target.id == k)
+        calls_before = [st for st in loop.body[:loop.body.index(inc)] if any(isinstance(c, ast.Call) and isinstance(c.func, ast.Attribute) and c.func.attr in ("do", "undo") for c in ast.walk(st))]
+        if not calls_before:
+            return False, (f"`{k} += 1` stands before the call it counts: when that call fails the counter already includes it, and the handler compensates a sub-change "
+                           "that was never performed")
     neg = any(isinstance(x, ast.Slice) and any(isinstance(b, ast.UnaryOp) and isinstance(b.op, ast.USub) and isinstance(b.operand, ast.Name) and b.operand.id == k
                                                for b in (x.lower, x.upper) if b is not None) for x in ast.walk(hloop.iter))
     if neg:
@@ -97,9 +121,9 @@ def _indexed_rollback_verdict(loop: ast.For, hloop: ast.For):
         if h == f"{e}[:{k}]":
             return False, f"the handler iterates `{h}` in the order the sub-changes were applied: they are undone oldest-first"
     else:
-        if h in (f"{e}[len({e}) - {k}:]", f"{e}[len({e}) - {k} :]"):
+        if h == f"{e}[len({e}) - {k}:]":
             return True, f"the last {k} sub-changes, the ones completed, are compensated in their original order"
-        if h in (f"reversed({e}[len({e}) - {k}:])",):
+        if h == f"reversed({e}[len({e}) - {k}:])":
             return False, f"the handler iterates `{h}`: the sub-changes undone last-first are re-applied last-first"
     return None, f"counter form not recognised: body over `{ast.unparse(loop.iter)}`, handler over `{h}`"
 
@@ -278,7 +302,7 @@ def _check_main(ctx, res) -> None:
             name = f.qualname.replace("rope.base.change.", "")
             where = f"{f.unit.rel}:{hloop.lineno}"
             if ins is None:
-                okx, why = _indexed_rollback_verdict(loop, hloop)
+                okx, why = _indexed_rollback_verdict(f.node, loop, hloop)
                 if okx is None:
                     res.undecided("R10.1", name, where, why)
                 else:
